@@ -172,7 +172,7 @@ def c16(tier, seed):
 def c09(tier, seed):
     res = Result("C09", tier, seed, "model_checking")
     wd = workdir("C09")
-    cfgs = ["MC_Presolve_quick.cfg", "MC_Presolve_hist.cfg"] if tier == "quick" else ["MC_Presolve_quick.cfg", "MC_Presolve_hist.cfg", "MC_Presolve_full.cfg"]
+    cfgs = ["MC_Presolve_quick.cfg", "MC_Presolve_neg.cfg", "MC_Presolve_hist.cfg"] if tier == "quick" else ["MC_Presolve_quick.cfg", "MC_Presolve_neg.cfg", "MC_Presolve_hist.cfg", "MC_Presolve_full.cfg"]
     r = spec_to_impl(res, "C09", "MC_Presolve.tla", cfgs, "presolve-replay", wd, "presolve", workers=8 if tier == "quick" else 14,
                      timeout=4 * 3600, extra_args=["--seed", seed])
     res.coverage = {"states": r["states"], "transitions": max(1, r["transitions"]), "traces_validated_against_impl": r["behaviours"],
